@@ -5,6 +5,11 @@
 // compare, and report.
 #pragma once
 
+#include <tao/pegtl/contrib/coverage.hpp>
+#include <tao/pegtl/contrib/state_control.hpp>
+
+#include <csignal>
+
 #include "harness/engine.hpp"
 #include "harness/rc_util.hpp"
 
@@ -35,6 +40,7 @@ namespace vf
       unsigned nonempty_mask = 0;  // slots that must consume when they succeed (they sit in repetition bodies)
       bool scripted_veto = false;  // grammar has bool actions placed where vetoing is sound
       bool scripted_throw = false;
+      bool visited_check = false;
       int maxlen_quick = 5, maxlen_thorough = 7;
       std::vector< std::string > extra;  // explicit additional inputs
       std::vector< cfg_entry > cfgs;
@@ -59,6 +65,181 @@ namespace vf
    {
       pegtl::memory_input< T, Eol, const char* > in( pb.begin(), pb.end(), "src" );
       return run_parse< Top, Action, Control, A, M >( in );
+   }
+
+   // substrings of failure signatures that belong to recorded (open) findings: --known "a|b|c"
+   inline std::vector< std::string >& known_sigs()
+   {
+      static std::vector< std::string > k;
+      return k;
+   }
+   inline bool is_known( const std::string& sig )
+   {
+      for( const auto& k : known_sigs() ) {
+         if( !k.empty() && sig.find( k ) != std::string::npos ) {
+            return true;
+         }
+      }
+      return false;
+   }
+   inline void set_known( const std::string& list )
+   {
+      std::size_t p = 0;
+      while( p <= list.size() ) {
+         const std::size_t q = list.find( '|', p );
+         const std::string item = list.substr( p, q == std::string::npos ? std::string::npos : q - p );
+         if( !item.empty() ) {
+            known_sigs().push_back( item );
+         }
+         if( q == std::string::npos ) {
+            break;
+         }
+         p = q + 1;
+      }
+   }
+
+   // ---- state_control protocol state: sees the hooks of ALL rules (enable = true), checks call-stack discipline ----
+   struct proto_state
+   {
+      template< typename Rule >
+      static constexpr bool enable = true;
+
+      std::vector< std::type_index > stack;
+      std::uint64_t starts = 0, closes = 0;
+
+      template< typename Rule >
+      void close( const char* what )
+      {
+         ++closes;
+         if( stack.empty() || stack.back() != std::type_index( typeid( Rule ) ) ) {
+            mon().flag( "C08", std::string( "state-control-protocol:" ) + what, std::string( what ) + " of " + rule_name< Rule >() + " delivered to the state while the innermost started rule is " + ( stack.empty() ? std::string( "none" ) : demangled( stack.back() ) ) );
+            return;
+         }
+         stack.pop_back();
+      }
+      template< typename Rule, typename ParseInput, typename... States >
+      void start( const ParseInput& /*unused*/, States&&... /*unused*/ )
+      {
+         ++starts;
+         stack.push_back( std::type_index( typeid( Rule ) ) );
+      }
+      template< typename Rule, typename ParseInput, typename... States >
+      void success( const ParseInput& /*unused*/, States&&... /*unused*/ )
+      {
+         close< Rule >( "success" );
+      }
+      template< typename Rule, typename ParseInput, typename... States >
+      void failure( const ParseInput& /*unused*/, States&&... /*unused*/ )
+      {
+         close< Rule >( "failure" );
+      }
+      template< typename Rule, typename ParseInput, typename... States >
+      void unwind( const ParseInput& /*unused*/, States&&... /*unused*/ )
+      {
+         close< Rule >( "unwind" );
+      }
+      template< typename Rule, typename ParseInput, typename... States >
+      void raise( const ParseInput& /*unused*/, States&&... /*unused*/ )
+      {}
+      template< typename Rule, typename Ambient, typename... States >
+      void raise_nested( const Ambient& /*unused*/, States&&... /*unused*/ )
+      {}
+      template< typename Rule, typename ParseInput, typename... States >
+      void apply( const ParseInput& /*unused*/, States&&... /*unused*/ )
+      {
+         if( stack.empty() || stack.back() != std::type_index( typeid( Rule ) ) ) {
+            mon().flag( "C08", "state-control-protocol:apply", "apply of " + rule_name< Rule >() + " delivered to the state out of order" );
+         }
+      }
+      template< typename Rule, typename ParseInput, typename... States >
+      void apply0( const ParseInput& /*unused*/, States&&... /*unused*/ )
+      {
+         if( stack.empty() || stack.back() != std::type_index( typeid( Rule ) ) ) {
+            mon().flag( "C08", "state-control-protocol:apply0", "apply0 of " + rule_name< Rule >() + " delivered to the state out of order" );
+         }
+      }
+   };
+
+   template< typename Top,
+             template< typename... >
+             class Action,
+             pegtl::apply_mode A,
+             pegtl::rewind_mode M,
+             pegtl::tracking_mode T,
+             typename Eol >
+   impl_result runner_statectl( const probe& pb )
+   {
+      pegtl::memory_input< T, Eol, const char* > in( pb.begin(), pb.end(), "src" );
+      proto_state ps;
+      const impl_result r = run_parse< Top, Action, pegtl::state_control< obs_control_unw >::template type, A, M >( in, ps );
+      if( !mon().aborted && r.k != pm::FUEL ) {
+         if( !ps.stack.empty() ) {
+            mon().flag( "C08", "state-control-protocol:left-open", std::to_string( ps.stack.size() ) + " rule attempts still open in the state_control state after the run, innermost " + demangled( ps.stack.back() ) );
+         }
+         if( ps.starts != ps.closes ) {
+            mon().flag( "C08", "state-control-protocol:count", "state saw " + std::to_string( ps.starts ) + " starts but " + std::to_string( ps.closes ) + " success/failure/unwind" );
+         }
+      }
+      return r;
+   }
+
+   template< typename Top,
+             template< typename... >
+             class Action,
+             pegtl::tracking_mode T,
+             typename Eol >
+   impl_result runner_coverage( const probe& pb )
+   {
+      pegtl::memory_input< T, Eol, const char* > in( pb.begin(), pb.end(), "src" );
+      impl_result r;
+      pegtl::coverage_result res;
+      monitor& m = mon();
+      bool usable = true;
+      try {
+         r.k = pegtl::coverage< Top, Action, obs_control_unw >( in, res ) ? pm::OK : pm::FAIL;
+      }
+      catch( const pegtl::parse_error& e ) {
+         r.k = pm::RAISED;
+         r.message = std::string( e.message() );
+         r.what = e.what();
+         r.byte = e.position_object().byte;
+         r.line = e.position_object().line;
+         r.column = e.position_object().column;
+         r.source = e.position_object().source;
+         try {
+            std::rethrow_if_nested( e );
+         }
+         catch( ... ) {
+            r.nested = true;
+         }
+      }
+      catch( const foreign_exc& e ) {
+         r.k = pm::THROWN;
+         r.serial = e.serial;
+      }
+      catch( const foreign_std_exc& e ) {
+         r.k = pm::THROWN;
+         r.serial = e.serial;
+      }
+      catch( const std::out_of_range& ) {
+         // coverage<> itself threw map::at (rules that call sub-rules outside their subs_t): no counters were produced
+         r.k = pm::FUEL;
+         usable = false;
+      }
+      r.end = m.off( in.current() );
+      if( usable ) {
+         for( const auto& [ name, e ] : res ) {
+            if( e.start != e.success + e.failure + e.unwind ) {
+               m.flag( "C08", "coverage-unbalanced:rule", "coverage of " + std::string( name ) + ": start " + std::to_string( e.start ) + " != success " + std::to_string( e.success ) + " + failure " + std::to_string( e.failure ) + " + unwind " + std::to_string( e.unwind ) );
+            }
+            for( const auto& [ bname, b ] : e.branches ) {
+               if( b.start != b.success + b.failure + b.unwind ) {
+                  m.flag( "C08", "coverage-unbalanced:branch", "coverage of branch " + std::string( bname ) + " of " + std::string( name ) + ": start " + std::to_string( b.start ) + " != " + std::to_string( b.success ) + " + " + std::to_string( b.failure ) + " + " + std::to_string( b.unwind ) );
+               }
+            }
+         }
+      }
+      return r;
    }
 
    struct case_t
@@ -95,6 +276,39 @@ namespace vf
    inline std::string case_json( const gram_entry& ge, const case_t& c, const char* cfg )
    {
       return jobj().str( "kind", "corpus" ).raw( "grammar", ge.json ).str( "input_hex", hexs( c.input ) ).str( "input", show( c.input ) ).str( "slots", script_text( c.slots ) ).num( "salt", (long long)c.as.salt ).num( "veto_mod", c.as.veto_mod ).num( "throw_mod", c.as.throw_mod ).str( "cfg", cfg ).done();
+   }
+
+   // ---- crash reporting: a signal inside a case still yields a report with that case ------------------------
+   struct crash_ctx
+   {
+      report* R = nullptr;
+      std::string out;
+      const gram_entry* ge = nullptr;
+      const case_t* c = nullptr;
+      const char* cfg = "";
+   };
+   inline crash_ctx& crash()
+   {
+      static crash_ctx x;
+      return x;
+   }
+   inline void crash_handler( int sig )
+   {
+      crash_ctx& x = crash();
+      std::signal( sig, SIG_DFL );
+      if( x.R && x.ge && x.c ) {
+         x.R->fail( "crash:signal-" + std::to_string( sig ) + ":" + x.cfg, case_json( *x.ge, *x.c, x.cfg ), "[" + x.ge->name + " cfg " + x.cfg + " input '" + show( x.c->input ) + "'] the process received signal " + std::to_string( sig ) + " while running this case\n grammar: " + x.ge->pretty );
+         x.R->write( x.out );
+      }
+      std::_Exit( 1 );
+   }
+   inline void install_crash_handler( report& R, const std::string& out )
+   {
+      crash().R = &R;
+      crash().out = out;
+      for( int s : { SIGSEGV, SIGABRT, SIGBUS, SIGFPE, SIGILL } ) {
+         std::signal( s, &crash_handler );
+      }
    }
 
    struct stats
@@ -165,12 +379,16 @@ namespace vf
             continue;
          }
          monitor& m = mon();
+         crash().ge = &ge;
+         crash().c = &c;
+         crash().cfg = cf.name;
          m.reset();
          m.g = &g;
          m.reg = &reg;
          pm::machine& mm = !cf.have_act ? m_none : cf.actions ? m_on : m_off;
          m.model = cf.observed ? &mm : nullptr;
          m.check_model = cf.observed;
+         m.check_visited = ge.visited_check;
          m.base = pb.begin();
          m.real_end = pb.end();
          m.byte0 = 0;
@@ -225,7 +443,7 @@ namespace vf
                std::size_t eb, el, ec;
                m.expected_position( m.base + ( got.byte - m.byte0 ), eb, el, ec );
                if( got.byte < m.byte0 + std::size_t( want.rpos ) || got.byte > m.byte0 + c.input.size() ) {
-                  vs.push_back( { "C05", "raise-position-range", "parse_error byte " + std::to_string( got.byte ) + " lies before the start of the blamed attempt (" + std::to_string( want.rpos ) + ") or beyond the input" } );
+                  vs.push_back( { "C05", std::string( "raise-position-range" ) + ( cf.lazy && m.raise_in_subinput ? ":lazy:subinput" : "" ), "parse_error byte " + std::to_string( got.byte ) + " lies before the start of the blamed attempt (" + std::to_string( want.rpos ) + ") or beyond the input" } );
                }
                else if( want.nested && got.byte != m.byte0 + std::size_t( want.rpos ) ) {
                   vs.push_back( { "C05", "raise-nested-position", "nested parse_error byte " + std::to_string( got.byte ) + ", expected the start of the try block " + std::to_string( want.rpos ) } );
@@ -312,7 +530,12 @@ namespace vf
             if( prop == "C09" && p == "C05" && v.sig.rfind( "raise-identity", 0 ) == 0 ) {
                p = prop;  // "raises the same global failures as that combination"
             }
-            if( p == prop ) {
+            if( p == prop && is_known( v.sig ) ) {
+               // a recorded finding: reported once (the driver prints KNOWN-FINDING), excluded from the search so that it continues
+               ++R.excluded_known;
+               R.fail( v.sig, case_json( ge, c, cf.name ), "[" + ge.name + " cfg " + cf.name + " input '" + show( c.input ) + "'] " + v.detail + "\n grammar: " + ge.pretty );
+            }
+            else if( p == prop ) {
                all_ok = false;
                sink( v.sig, case_json( ge, c, cf.name ), "[" + ge.name + " cfg " + cf.name + " input '" + show( c.input ) + "'] " + v.detail + "\n grammar: " + ge.pretty );
             }
@@ -362,6 +585,8 @@ namespace vf
       report R;
       R.max_samples = 6;
       const std::string prop = A.get( "prop", "C01" );
+      set_known( A.get( "known", "" ) );
+      install_crash_handler( R, A.out );
       auto& gs = grammars();
 
       auto sink_direct = [ & ]( const std::string& sig, const std::string& kase, const std::string& detail ) { R.fail( sig, kase, detail ); };
